@@ -106,3 +106,20 @@ def polyval(coeffs, x):
     for c in reversed(coeffs):
         acc = acc * x + c
     return acc
+
+
+def parallel_tlc(chk, jobs):
+    """Run several trace-less `chk.tlc` jobs concurrently (each job: dict of args with keys
+    module, cfg and keyword arguments).  Results in the order of `jobs`; the first exception
+    (MachineryError of a failed vacuity guard, ...) is re-raised."""
+    from concurrent.futures import ThreadPoolExecutor
+
+    def one(job):
+        job = dict(job)
+        module = job.pop("module")
+        cfg = job.pop("cfg")
+        return chk.tlc(module, cfg, **job)
+
+    with ThreadPoolExecutor(max_workers=max(1, len(jobs))) as ex:
+        futs = [ex.submit(one, j) for j in jobs]
+        return [f.result() for f in futs]
